@@ -106,6 +106,11 @@ func Load(repoDir, goarch string) (*Program, error) {
 }
 
 // InModule reports whether fn is defined in the module under analysis.
+// InModulePkg: the package belongs to the module under analysis.
+func (p *Program) InModulePkg(pkg *ssa.Package) bool {
+	return pkg != nil && pkg.Pkg != nil && strings.HasPrefix(pkg.Pkg.Path(), ModulePath)
+}
+
 func (p *Program) InModule(fn *ssa.Function) bool {
 	for fn.Parent() != nil {
 		fn = fn.Parent()
